@@ -16,6 +16,25 @@ const LITERALS: [&str; 34] = [
     "0.000000000000000000001", "ja", "nee", "\"\"", "\"0\"", "\"0.0\"", "\"-0.0\"", "\"ja\"", "\"é\"",
 ];
 
+/// (expression, type) for the `cross-type-equality` family; values whose payload bits coincide across types on purpose
+/// (0 / nee / null / 0.0 / "", 1 / ja / 1.0 / "1")
+const XVALS: [(&str, &str); 14] = [
+    ("0", "int"),
+    ("1", "int"),
+    ("2", "int"),
+    ("ja", "bool"),
+    ("nee", "bool"),
+    ("(als nee { 1 })", "null"),
+    ("0.0", "float"),
+    ("1.0", "float"),
+    ("\"\"", "string"),
+    ("\"1\"", "string"),
+    ("\"ja\"", "string"),
+    ("(functie() { 1 })", "functie"),
+    ("[1]", "lijst"),
+    ("[]", "lijst"),
+];
+
 fn literal_value(s: &str) -> Val {
     if s == "ja" || s == "nee" {
         Val::Bool(s == "ja")
@@ -247,6 +266,7 @@ impl C15 {
                 ("array", 100),
                 ("pairs-row", 24),
                 ("literal-pairs", 40),
+                ("cross-type-equality", 60),
             ]);
         }
         Families::new(vec![
@@ -261,6 +281,7 @@ impl C15 {
             ("array", t.pick(3_000, 100_000)),
             ("pairs-row", self.sample.len() as u64),
             ("literal-pairs", (LITERALS.len() * LITERALS.len()) as u64),
+            ("cross-type-equality", (XVALS.len() * XVALS.len() * 5) as u64),
         ])
     }
 
@@ -438,6 +459,40 @@ impl Check for C15 {
                     st.violation("roundtrip:array", e, &txt);
                 }
             }
+            "cross-type-equality" => {
+                // through the language: two values of different type are never equal, whichever instruction the compiler
+                // picks for the comparison (an error is fine — C06 demands one —, `ja` for == or `nee` for != is not);
+                // two values of the same type and content always are
+                let n = XVALS.len() as u64;
+                let total = n * n * 5;
+                let i = if ctx.flavour == crate::sup::Flavour::Miri { (i * 37 + ctx.seed) % total } else { i };
+                let (form, a, b) = (i % 5, XVALS[((i / 5) / n) as usize], XVALS[((i / 5) % n) as usize]);
+                for (op, eq_answer) in [("==", "ja"), ("!=", "nee")] {
+                    let text = match form {
+                        0 => format!("{} {} {}", a.0, op, b.0),
+                        1 => format!("functie f(x) {{ x {} {} }} f({})", op, b.0, a.0),
+                        2 => format!("functie f(x) {{ {} {} x }} f({})", a.0, op, b.0),
+                        3 => format!("functie f(x, y) {{ x {} y }} f({}, {})", op, a.0, b.0),
+                        _ => format!("stel p = {}; stel q = {}; p {} q", a.0, b.0, op),
+                    };
+                    let o = crate::obs::eval_observed(&text, &crate::obs::ObsCfg::plain(10_000));
+                    st.evaluations += 1;
+                    st.count("cross-type-equality");
+                    st.distinct_hash(hash_str(&text));
+                    let says_equal = matches!(&o.outcome, crate::obs::Outcome::Value(Val::Bool(v)) if *v == (eq_answer == "ja"));
+                    let says_unequal = matches!(&o.outcome, crate::obs::Outcome::Value(Val::Bool(v)) if *v != (eq_answer == "ja"));
+                    if a.1 != b.1 && says_equal {
+                        st.violation("cross-type-equality:different-types-equal", format!("{} gave {}: values of type {} and {} compare equal", text, o.outcome.render(), a.1, b.1), &text);
+                    }
+                    // same spelling, same type (functions and arrays aside: identity / no comparison)
+                    if a.0 == b.0 && !matches!(a.1, "functie" | "lijst") && !says_equal {
+                        st.violation("cross-type-equality:same-value-unequal", format!("{} gave {}", text, o.outcome.render()), &text);
+                    }
+                    if a.1 == b.1 && a.0 != b.0 && !matches!(a.1, "functie" | "lijst") && !says_unequal {
+                        st.violation("cross-type-equality:different-content-equal", format!("{} gave {}", text, o.outcome.render()), &text);
+                    }
+                }
+            }
             "literal-pairs" => {
                 // two literals written in one program (so that they meet in the constant pool), each twice, directly
                 // and through variables: what is read back must be what was written, bit for bit
@@ -506,7 +561,7 @@ impl Check for C15 {
             inconclusive.push(format!("pairwise cross product incomplete: {} pairs", pairs));
         }
         Summary {
-            rule: "constructors of nederlang::object::Object called directly, read back through tag/as_*/is_heap_allocated; plus every ordered pair of 34 literal spellings (integers up to both range ends, floats incl. both zeros and 17-digit fractions, booleans, strings that spell numbers) written together in one program, directly, through variables and through a function, and read back from the result; distinct = distinct value descriptions (and distinct ordered pairs); every case is non-trivial (an actual encode/decode)".to_string(),
+            rule: "constructors of nederlang::object::Object called directly, read back through tag/as_*/is_heap_allocated; plus every ordered pair of 34 literal spellings (integers up to both range ends, floats incl. both zeros and 17-digit fractions, booleans, strings that spell numbers) written together in one program, directly, through variables and through a function, and read back from the result; and == / != between every ordered pair of 14 values of the seven types in five syntactic forms (literals, local against literal on either side, two locals, two globals): different types never equal, same type and content always, different content never; distinct = distinct value descriptions (and distinct ordered pairs); every case is non-trivial (an actual encode/decode)".to_string(),
             exhaustive: Some(true),
             extra: json!({
                 "exhaustive_parts": ["int lattice", "function (offset,count) boundary grid", "200x200 pairwise cross product"],
